@@ -93,3 +93,20 @@ Example C03_two_emissions :
       (filter is_emit (concat oss))
   = [(100, 1, 6, Some 7); (100, 2, 4, Some 7)].
 Proof. vm_compute. reflexivity. Qed.
+
+(* ---------- PacketHeader.to_bytes REGENERATED from mpgameserver/connection.py on every run (tools/py2v_bytes.py,
+   Gen/HdrKernels.v; proved equal to Wire.encode_header in Proofs/HdrKernelsP.v) *)
+From Gen Require HdrKernels.
+From Proofs Require HdrKernelsP.
+
+(* 3'. clause 3 stated on the translated source text: the first 12 bytes PacketHeader.to_bytes produces — the
+       AES-GCM nonce — determine (direction, ctime, seq, ack) *)
+Theorem C03_kernel_nonce_bytes : forall h1 h2 b1 b2,
+  HdrKernels.gen_PacketHeader_to_bytes (if h_to_server h1 then 0 else 1) (h_ctime h1) (h_seq h1) (h_ack h1)
+    (ptype_code (h_type h1)) (h_len h1) (h_count h1) (h_ackbits h1) = Ok b1 ->
+  HdrKernels.gen_PacketHeader_to_bytes (if h_to_server h2 then 0 else 1) (h_ctime h2) (h_seq h2) (h_ack h2)
+    (ptype_code (h_type h2)) (h_len h2) (h_count h2) (h_ackbits h2) = Ok b2 ->
+  firstn 12 b1 = firstn 12 b2 ->
+  h_to_server h1 = h_to_server h2 /\ h_ctime h1 = h_ctime h2 /\ h_seq h1 = h_seq h2 /\ h_ack h1 = h_ack h2.
+Proof. intros h1 h2 b1 b2. rewrite !HdrKernelsP.gen_to_bytes_spec. exact (nonce_bytes_inj h1 h2 b1 b2). Qed.
+Print Assumptions C03_kernel_nonce_bytes.
